@@ -536,3 +536,84 @@ def through_flag(fn, yes, no):
                         val = s_["rv"]["o"]["c"]["v"]
                         return (e[0], [e[1]]) if val else (e[1], [e[0]])
     return yes, no
+
+
+# ---------------------------------------------------------------------------------------------
+# BALANCE b1 — depth automata over Ev-kind switches
+
+
+def ev_switches(fn, ty_prefix="de::Ev<"):
+    """(block, term, place sym) of switches on the discriminant of an `Ev` value."""
+    out = []
+    for b in sorted(fn.live_blocks):
+        blk = fn.blocks[b]
+        t = blk["term"]
+        if t["k"] != "switch":
+            continue
+        pl = t["o"].get("mv") or t["o"].get("cp")
+        if pl is None:
+            continue
+        dst = None
+        for s_ in blk["stmts"]:
+            if s_["k"] == "assign" and s_["p"] == pl and s_["rv"]["k"] == "discr":
+                dst = s_["rv"]["p"]
+        if dst is None:
+            continue
+        ty = fn.local_ty(dst["l"])
+        for e in dst["pr"]:
+            if e == "*":
+                ty = ty.lstrip("&")
+                if ty.startswith("mut "):
+                    ty = ty[4:]
+            elif isinstance(e, dict) and "ty" in e:
+                ty = e["ty"]
+        ty = ty.lstrip("&")
+        if ty.startswith("mut "):
+            ty = ty[4:]
+        if ty.startswith(ty_prefix):
+            out.append((b, t))
+    return out
+
+
+def depth_effects(fn, counter_pred):
+    """{block: effect} for assignments to a counter place satisfying counter_pred(rendered place):
+    effect is '+1', '-1', '=N' or '?'."""
+    out = {}
+    for b, i, s_ in fn.stmts():
+        if s_["k"] != "assign":
+            continue
+        r = render(fn.sym_place(s_["p"])) if s_["p"]["pr"] else (fn.local_name(s_["p"]["l"]) or "")
+        if not r or not counter_pred(r):
+            continue
+        with fn.deep():
+            v = render(fn.sym_rvalue(s_["rv"]))
+        base = r
+        if v in ("Add(%s, 1)" % base, "Add(1, %s)" % base) or (v.startswith("Add(") and v.endswith(", 1)")):
+            eff = "+1"
+        elif v == "Sub(%s, 1)" % base or (v.startswith("Sub(") and v.endswith(", 1)")):
+            eff = "-1"
+        elif v.lstrip("-").isdigit():
+            eff = "=" + v
+        else:
+            eff = "?"
+        out.setdefault(b, []).append(eff)
+    return out
+
+
+def arm_effects(fn, start, effects, stop_blocks):
+    """set of effect sequences along paths from `start` until a stop block / return (bounded)."""
+    res = set()
+    seen = set()
+    st = [(start, ())]
+    while st:
+        b, acc = st.pop()
+        if (b, acc) in seen or len(acc) > 3:
+            continue
+        seen.add((b, acc))
+        acc2 = acc + tuple(effects.get(b, ()))
+        if b in stop_blocks and b != start or fn.blocks[b]["term"]["k"] == "return" or not fn.succ[b]:
+            res.add(acc2 if b not in stop_blocks else acc)
+            continue
+        for s2 in fn.succ[b]:
+            st.append((s2, acc2))
+    return res
